@@ -4,9 +4,17 @@ import Log4rsModel.Routing.Spec
 /-
 C02 case:   initPath  targets(,)  first configuration (4 fields as C01: appenders rootLevel rootRefs loggers)
             then 5 fields per further step:  kind  + the 4 configuration fields, kind =
-              set                                  Handle::set_config
+              set | set@0 | set@1 | set@2          Handle::set_config through clone number k of the handle
+                                                   (0 = the handle init returned, 1 = a clone taken at init,
+                                                   2 = a clone taken at first use and moved to a worker thread)
+              reload                               the file reloader (`ConfigReloader::run_once`) applies a rewritten file
               reinit-config | reinit-handler | reinit-raw | reinit-file   a further init_* call (must return Err)
-observation: steps joined by `/`, per step:  max_level : enabled bits (targets × levels 1..5) : macro deliveries (, per target × level)
+            initPath = config | handler | raw | file, optionally followed by `@` + json|yaml|toml + flag letters
+              O (defaults omitted from the document where the configuration has the default) and
+              U (upper-case level spellings) — how `raw` / `file` documents are rendered; same meaning.
+            inside a name, the token `^n` stands for the n-component name `a::a::…::a` (deep-name class).
+observation: `ABORT` (the child process was killed by a signal), or the steps joined by `/`, per step:
+             max_level : reported max_log_level() : enabled bits (targets × levels 1..5) : macro deliveries (, per target × level)
              a re-initialisation step is prefixed `E!` (the call returned Err) or `K!` (it returned Ok)
 -/
 namespace Driver.C02
@@ -20,14 +28,54 @@ def decPath (s : String) : Option InitPath :=
   | "file" => some .file
   | _ => none
 
-def decSteps : List String → Option (List Step)
+/-- the rendering suffix of the init path: (format, flags) -/
+def decRender (s : String) : Option (String × List Char) :=
+  let fmt := (s.take 4).toString
+  let flags := (s.drop 4).toString.toList
+  if (fmt = "json" || fmt = "yaml" || fmt = "toml") && flags.all (fun c => c = 'O' || c = 'U') then some (fmt, flags)
+  else none
+
+def decPathField (s : String) : Option (InitPath × Option (String × List Char)) :=
+  match splitOnChar '@' s with
+  | [p] => (decPath p).map fun p => (p, none)
+  | [p, r] =>
+    match decPath p, decRender r with
+    | some p, some r => some (p, some r)
+    | _, _ => none
+  | _ => none
+
+/-- hex spelling of the n-component name `a::a::…::a` -/
+def deepHex (n : Nat) : String :=
+  "61" ++ String.join (List.replicate (n - 1) ".3a.3a.61")
+
+/-- expand every `^n` token of a field -/
+def expandDeep (s : String) : Option String :=
+  match s.splitOn "^" with
+  | [] => some s
+  | first :: rest =>
+    (mapM? (fun (piece : String) =>
+      let digits := (piece.takeWhile Char.isDigit).toString
+      match digits.toNat? with
+      | some n => if n = 0 then none else some (deepHex n ++ (piece.drop digits.length).toString)
+      | none => none) rest).map fun ps => first ++ String.join ps
+
+def decCfg (a l r ls : String) : Option Config :=
+  match expandDeep ls with
+  | some ls => C01.decConfig a l r ls
+  | none => none
+
+/-- step kinds with the handle index of a `set` -/
+def decSteps : List String → Option (List (Step × Nat))
   | [] => some []
   | k :: a :: l :: r :: ls :: rest =>
-    match C01.decConfig a l r ls, decSteps rest with
+    match decCfg a l r ls, decSteps rest with
     | some c, some ss =>
-      if k = "set" then some (.setConfig c :: ss)
+      if k = "set" || k = "set@0" then some ((.setConfig c, 0) :: ss)
+      else if k = "set@1" then some ((.setConfig c, 1) :: ss)
+      else if k = "set@2" then some ((.setConfig c, 2) :: ss)
+      else if k = "reload" then some ((.reload c, 0) :: ss)
       else if k.startsWith "reinit-" then
-        (decPath (k.drop 7).toString).map fun p => .reinit p c :: ss
+        (decPath (k.drop 7).toString).map fun p => (.reinit p c, 0) :: ss
       else none
     | _, _ => none
   | _ => none
@@ -37,49 +85,80 @@ def levels : List Nat := [1, 2, 3, 4, 5]
 def probesOf (targets : List Name) : List (Name × Nat) :=
   targets.flatMap fun t => levels.map fun l => (t, l)
 
-def renderStep (max : Nat) (bits : List Bool) (deliv : List (List Name)) : String :=
-  toString max ++ ":" ++ String.join (bits.map encBool) ++ ":" ++ C01.renderDeliveries deliv
+def renderStep (max reported : Nat) (bits : List Bool) (deliv : List (List Name)) : String :=
+  toString max ++ ":" ++ toString reported ++ ":" ++ String.join (bits.map encBool) ++ ":" ++ C01.renderDeliveries deliv
 
 def modelStep (s : State) (targets : List Name) : String :=
   let ps := probesOf targets
-  match mapM? (fun p => enabled s.cfg p.1 p.2) ps, mapM? (fun p => macroLog s p.1 p.2) ps with
-  | some bits, some deliv => renderStep s.globalMax bits deliv
-  | _, _ => "PANIC"
+  match maxLogLevel s.cfg, mapM? (fun p => enabled s.cfg p.1 p.2) ps, mapM? (fun p => macroLog s p.1 p.2) ps with
+  | some reported, some bits, some deliv => renderStep s.globalMax reported bits deliv
+  | _, _, _ => "PANIC"
 
 def specStep (cfg : Config) (targets : List Name) : String :=
   let ps := probesOf targets
-  renderStep (specMaxLevel cfg) (ps.map fun p => specEnabled cfg p.1 p.2) (ps.map fun p => specDeliver cfg p.1 p.2)
+  renderStep (specMaxLevel cfg) (specMaxLevel cfg) (ps.map fun p => specEnabled cfg p.1 p.2)
+    (ps.map fun p => specDeliver cfg p.1 p.2)
 
 def reinitMark (ok : Bool) : String := if ok then "K!" else "E!"
 
 def isReinit : Step → Bool
   | .reinit _ _ => true
-  | .setConfig _ => false
+  | _ => false
+
+def isReload : Step → Bool
+  | .reload _ => true
+  | _ => false
+
+def isSet : Step → Bool
+  | .setConfig _ => true
+  | _ => false
 
 def stepCfg : Step → Config
   | .reinit _ c => c
   | .setConfig c => c
+  | .reload c => c
 
 /-- the configuration in force after each step, as the statement has it: a failed attempt installs nothing -/
 def inForce : Config → List Step → List Config
   | _, [] => []
-  | _, .setConfig c :: rest => c :: inForce c rest
-  | cur, .reinit _ _ :: rest => cur :: inForce cur rest
+  | cur, st :: rest =>
+    match st.installs with
+    | some c => c :: inForce c rest
+    | none => cur :: inForce cur rest
 
 /-- only a strict descendant is as verbose as the global maximum -/
 def deepVerbose (cfg : Config) : Bool :=
   cfg.rootLevel < specMaxLevel cfg &&
   cfg.loggers.all fun l => l.level < specMaxLevel cfg || (parent cfg l).isSome
 
+def nComps (l : LoggerCfg) : Nat := (comps l.name).length
+
+def maxDepth (cfg : Config) : Nat := (cfg.loggers.map nComps).foldl max 0
+
+/-- every logger as verbose as the maximum has the greatest number of components, and the root is quieter -/
+def deepestIsLoudest (cfg : Config) : Bool :=
+  cfg.rootLevel < specMaxLevel cfg &&
+  cfg.loggers.all fun l => l.level < specMaxLevel cfg || nComps l = maxDepth cfg
+
 def stepTags (cfgs : List Config) : List String :=
   let maxes := cfgs.map specMaxLevel
   let pairs := maxes.zip (maxes.drop 1)
+  let triples := pairs.zip (maxes.drop 2)
+  let d := (cfgs.map maxDepth).foldl max 0
+  let n := (cfgs.map (·.loggers.length)).foldl max 0
   (if pairs.any (fun (a, b) => a < b) then ["max-up"] else []) ++
   (if pairs.any (fun (a, b) => b < a) then ["max-down"] else []) ++
-  (if cfgs.any deepVerbose then ["deep-verbose-only"] else []) ++
+  (if triples.any (fun ((a, b), c) => a ≠ b && a = c) then ["max-returns-to-earlier"] else []) ++
+  -- (the two tags that walk every prefix of every name are not computed for the deep-name class: quadratic)
+  (if d < 100 && cfgs.any deepVerbose then ["deep-verbose-only"] else []) ++
   (if cfgs.any (fun c => c.rootLevel < specMaxLevel c) then ["descendant-more-verbose"] else []) ++
+  (if cfgs.any (fun c => c.loggers.all (fun l => l.level < c.rootLevel)) then ["root-alone-is-max"] else []) ++
   (if cfgs.any (fun c => specMaxLevel c = 0) then ["all-off"] else []) ++
-  (if cfgs.any C01.hasImplied then ["implied-intermediate"] else [])
+  (if d < 100 && cfgs.any C01.hasImplied then ["implied-intermediate"] else []) ++
+  (if d ≥ 1000 then ["deep-name>=1000"] else if d ≥ 64 then ["depth>=64"] else if d ≥ 7 then ["depth>=7"]
+   else if d ≥ 5 then ["depth>=5"] else []) ++
+  (if n ≥ 50 then ["loggers>=50"] else if n ≥ 10 then ["loggers>=10"] else []) ++
+  (if cfgs.any (fun c => maxDepth c ≥ 5 && deepestIsLoudest c) then ["deepest-is-loudest"] else [])
 
 def reinitTags (first : Config) (steps : List Step) : List String :=
   let force := first :: inForce first steps
@@ -96,14 +175,30 @@ def reinitTags (first : Config) (steps : List Step) : List String :=
   (if ((steps.dropWhile isReinit).any fun s => !isReinit s) && (steps.head?.map isReinit).getD false
     then ["reinit-before-set"] else []) ++
   (if ((steps.dropWhile fun s => !isReinit s).any fun s => !isReinit s) then ["reinit-between-sets"] else []) ++
-  (if steps.any (fun s => !isReinit s) then ["reconfig"] else ["no-reconfig"])
+  (if steps.any isSet then ["reconfig"] else if steps.any isReload then [] else ["no-reconfig"]) ++
+  (if steps.any isReload then ["reload"] else []) ++
+  (if pairs.any (fun p => isReload p.1 && specMaxLevel p.2 < specMaxLevel (stepCfg p.1)) then ["reload-max-up"] else []) ++
+  (if pairs.any (fun p => isReload p.1 && specMaxLevel (stepCfg p.1) < specMaxLevel p.2) then ["reload-max-down"] else []) ++
+  (if pairs.any (fun p => isReload p.1 && maxDepth (stepCfg p.1) < 100 && deepVerbose (stepCfg p.1)) then ["reload-deep-verbose-only"] else []) ++
+  (if steps.any isReload && steps.any isSet then ["reload-and-set"] else [])
+
+def handleTags (hs : List (Step × Nat)) : List String :=
+  let sets := (hs.filter fun p => isSet p.1).map (·.2)
+  (if sets.contains 1 then ["handle:clone-at-init"] else []) ++
+  (if sets.contains 2 then ["handle:clone-on-worker-thread"] else []) ++
+  (if (sets.zip (sets.drop 1)).any (fun (a, b) => a ≠ b) then ["handle-alternation"] else []) ++
+  -- the shape X … Y … X with the maximum going M, M', M: handle X is asked to install a maximum it installed before
+  (let ms := hs.filterMap fun p => if isSet p.1 then some (p.2, specMaxLevel (stepCfg p.1)) else none
+   if (ms.zip (ms.drop 1)).zip (ms.drop 2) |>.any (fun ((a, b), c) => a.1 = c.1 && a.1 ≠ b.1 && a.2 = c.2 && a.2 ≠ b.2)
+   then ["same-handle-same-max-after-other-handle"] else [])
 
 def handle : Handler := fun cas obs =>
   match cas, obs with
   | path :: targets :: a :: l :: r :: ls :: stepFields, [obsLine] =>
     let obs := splitOnChar '/' obsLine
-    match decPath path, C01.decNames ',' targets, C01.decConfig a l r ls, decSteps stepFields with
-    | some path, some targets, some first, some steps =>
+    match decPathField path, (expandDeep targets).bind (C01.decNames ','), decCfg a l r ls, decSteps stepFields with
+    | some (path, render), some targets, some first, some hsteps =>
+      let steps := hsteps.map (·.1)
       -- the model: state after the first initialisation and after every further step
       let states := (List.range (steps.length + 1)).map fun i =>
         run { path, first, steps := steps.take i }
@@ -115,13 +210,16 @@ def handle : Handler := fun cas obs =>
       -- the statement, evaluated on the implementation's observation
       let force := first :: inForce first steps
       let specs := (force.zip marks).map fun (c, m) => m ++ specStep c targets
-      let reinitAt := false :: steps.map isReinit
-      let installed := first :: steps.filterMap fun
-        | .setConfig c => some c
-        | .reinit _ _ => none
+      let kindAt := "" :: steps.map fun s => if isReinit s then "reinit" else if isReload s then "reload" else "set"
+      let installed := first :: steps.filterMap Step.installs
+      let deepest := ((first :: steps.map stepCfg).map maxDepth).foldl max 0
       let verdict :=
         if !installed.all validB then "FAIL:generator produced an invalid configuration to install;sig=C02/invalid-config"
         else if obs = specs then "ok"
+        else if obsLine.startsWith "ABORT" then
+          "FAIL:the process was killed (" ++ obsLine ++ ") while initialising / reconfiguring / logging with a valid configuration" ++
+            (if deepest ≥ 1000 then " whose deepest logger name has " ++ toString deepest ++ " components;sig=C02/deep-logger-name-stack-overflow"
+             else ";sig=C02/abort")
         else
           let idx := ((obs.zip specs).takeWhile (fun (a, b) => a = b)).length
           let o := obs.getD idx "?"
@@ -130,20 +228,27 @@ def handle : Handler := fun cas obs =>
           let part :=
             if o.startsWith "K!" then "returned-ok" else
             match splitOnChar ':' (strip o), splitOnChar ':' (strip s) with
-            | [om, ob, _], [sm, sb, _] =>
-              if om ≠ sm then "max-level" else if ob ≠ sb then "enabled" else "macro-delivery"
+            | [om, orp, ob, _], [sm, srp, sb, _] =>
+              if om ≠ sm then "max-level" else if orp ≠ srp then "reported-max" else if ob ≠ sb then "enabled"
+              else "macro-delivery"
             | _, _ => "shape"
+          let kind := kindAt.getD idx ""
           let sig :=
-            if reinitAt.getD idx false then
+            if kind = "reinit" then
               (if part = "max-level" || part = "macro-delivery" then "C02/failed-reinit-changes-max-level"
                else "C02/failed-reinit-" ++ part)
+            else if kind = "reload" then "C02/reload-" ++ part
             else "C02/" ++ part
           "FAIL:step " ++ toString idx ++ " " ++ part ++ " expected " ++ (s.take 80).toString ++ " got " ++
             (o.take 80).toString ++ ";sig=" ++ sig
       { model := "/".intercalate model, spec := verdict,
         tags := (match path with
           | .config => "init_config" | .configWithErrHandler => "init_config_with_err_handler"
-          | .rawConfig => "init_raw_config" | .file => "init_file") :: (stepTags force ++ reinitTags first steps) }
+          | .rawConfig => "init_raw_config" | .file => "init_file") ::
+          ((match render with
+            | some (fmt, flags) => ["fmt:" ++ fmt] ++ (if flags.contains 'O' then ["defaults-omitted"] else []) ++
+                (if flags.contains 'U' then ["upper-case-levels"] else [])
+            | none => []) ++ stepTags force ++ reinitTags first steps ++ handleTags hsteps) }
     | _, _, _, _ => badCase "decode"
   | _, _ => badCase "arity"
 
